@@ -309,10 +309,18 @@ pub fn explore(run: &RdRun, init: Box<dyn Rd>) -> Outcome {
                 continue;
             }
             let mut r2 = rd.fork();
+            let f0 = fault_count();
             let obs = r2.apply(op);
+            let faulted = fault_count() != f0;
             out.cov.transitions += 1;
             model_tr.insert((pos, opi as u32));
             let mut verdict = judge(&exp, &obs, if errored { 0 } else { pos });
+            if faulted && matches!(obs, RObs::Err) && verdict.is_err() {
+                // the byte source answered Interrupted during this operation: reporting an error is
+                // permitted (C11), returning wrong data is not; the state lives on as an errored state
+                verdict = Ok(None);
+                out.cov.add_extra("errors_accepted_after_injected_interrupt", 1);
+            }
             // an observation = what the call returned and where it left the stream
             out.cov.observe(op.class(), fnv(format!("{:?}{:?}", obs, verdict.as_ref().ok()).as_bytes()));
             if depth >= 1 {
